@@ -5,6 +5,7 @@ import (
 	"encoding/json"
 	"fmt"
 	"hash/fnv"
+	"os"
 	"sort"
 	"strings"
 	"time"
@@ -50,7 +51,7 @@ type SchedSpec struct {
 }
 
 func (s SchedSpec) config(choices []int32) simrt.Config {
-	return simrt.Config{Seed: s.Seed, Strategy: s.Strategy, PCTDepth: s.PCTDepth, PCTSteps: s.PCTSteps,
+	return simrt.Config{Lenient: os.Getenv("VERIF_LENIENT") == "1", Seed: s.Seed, Strategy: s.Strategy, PCTDepth: s.PCTDepth, PCTSteps: s.PCTSteps,
 		TimerProb: s.TimerProb, SwitchBias: s.Bias, MaxSteps: s.MaxSteps, Replay: choices, KeepLog: 60}
 }
 
